@@ -62,6 +62,16 @@ CHECKS = {
              'inverse-consistency and a reference model are asserted after the operation. Bounded, not a proof.',
         note='Keys/values interact with the code only through ==/hash; CrossHair path exhaustion and z3 are trusted; pre-states larger than the bound are outside the claim.',
         ref='C17'),
+    'C19': dict(
+        technique='bounded symbolic execution (CrossHair/z3): iter_splitlines on a symbolic Unicode string through the real regex scan '
+                  '(CrossHair regex/string theory); reverse_iter_lines and JSONLIterator on contents assembled from solver-chosen item classes, every block size',
+        text='iter_splitlines(text) equals an explicit scanner over the eight listed breaks for EVERY text of length <= 3 over all of Unicode '
+             '(minus \\x1c-\\x1e) - the characters are solver variables. reverse_iter_lines: every content of <= 5 items from {LF, CRLF, ASCII, '
+             '2-byte, 3-byte}, every blocksize 1..len+1, binary and text-mode file objects, equals the reversed forward split. JSONLIterator: '
+             '<= 3 lines from {object, array, blank, whitespace, corrupt}, forward == reversed(reverse), ignore_errors, with the fixed 4096-byte '
+             'block edge placed at every offset. Path trees exhausted; bounded model checking.',
+        note='Trusted: CrossHair string/regex model and z3; in-memory CPython file objects. Outside: longer texts/files, bare CR in files, rel_seek, other encodings.',
+        ref='C19'),
     'C20': dict(
         technique='bounded symbolic execution (CrossHair/z3) of the real ThresholdCounter against an exact Counter, key stream symbolic; '
                   'plus z3 bounded model checking of a transition relation generated from the AST of ThresholdCounter.add for the size bound',
